@@ -821,3 +821,116 @@ func ruleOkDrop(prog *Program, rep *Report, rels ...string) {
 	rep.Rules = append(rep.Rules, "F-okdrop: the bool result of a same-package conversion helper ((T, bool), one argument) is discarded only where the argument is the subject of an enclosing type switch (the case list already selected convertible values); elsewhere a failed conversion would feed the zero value into a comparison")
 	runSynRule(prog, rep, "F-okdrop", rels, matchOkDrop, fixtureOkDrop, 1, 6)
 }
+
+// ---------------------------------------------------------------- M-copyall
+
+// matchCopyOrOriginal: a function copies a slice (copy(dst, src) with dst made in
+// the function) - its contract is to hand out a copy - but some return statement
+// returns src itself: on that path the caller receives the original.
+func matchCopyOrOriginal(files []*ast.File, info *types.Info) (sites []synSite, examined int) {
+	for _, f := range files {
+		for _, d := range f.Decls {
+			fd, ok := d.(*ast.FuncDecl)
+			if !ok || fd.Body == nil {
+				continue
+			}
+			// sources of copy(dst, src) where dst is a local assigned from make(...)
+			made := map[types.Object]bool{}
+			ast.Inspect(fd.Body, func(n ast.Node) bool {
+				as, ok := n.(*ast.AssignStmt)
+				if !ok {
+					return true
+				}
+				for i, l := range as.Lhs {
+					id, ok := l.(*ast.Ident)
+					if !ok || i >= len(as.Rhs) {
+						continue
+					}
+					if c, ok := ast.Unparen(as.Rhs[i]).(*ast.CallExpr); ok {
+						if fid, ok := c.Fun.(*ast.Ident); ok && fid.Name == "make" {
+							if o := info.Defs[id]; o != nil {
+								made[o] = true
+							} else if o := info.Uses[id]; o != nil {
+								made[o] = true
+							}
+						}
+					}
+				}
+				return true
+			})
+			srcs := map[types.Object]token.Pos{}
+			ast.Inspect(fd.Body, func(n ast.Node) bool {
+				c, ok := n.(*ast.CallExpr)
+				if !ok || len(c.Args) != 2 {
+					return true
+				}
+				fid, ok := c.Fun.(*ast.Ident)
+				if !ok || fid.Name != "copy" {
+					return true
+				}
+				if _, isBuiltin := info.Uses[fid].(*types.Builtin); !isBuiltin {
+					return true
+				}
+				dst, _ := ast.Unparen(c.Args[0]).(*ast.Ident)
+				src, _ := ast.Unparen(c.Args[1]).(*ast.Ident)
+				if dst == nil || src == nil || !made[info.Uses[dst]] {
+					return true
+				}
+				if o := info.Uses[src]; o != nil {
+					srcs[o] = c.Pos()
+				}
+				return true
+			})
+			if len(srcs) == 0 {
+				continue
+			}
+			examined++
+			ast.Inspect(fd.Body, func(n ast.Node) bool {
+				if _, isLit := n.(*ast.FuncLit); isLit {
+					return false
+				}
+				rs, ok := n.(*ast.ReturnStmt)
+				if !ok {
+					return true
+				}
+				for _, r := range rs.Results {
+					if id, ok := ast.Unparen(r).(*ast.Ident); ok {
+						if _, isSrc := srcs[info.Uses[id]]; isSrc {
+							sites = append(sites, synSite{pos: rs.Pos(), file: f, key: enclosingFuncName(f, rs.Pos()) + ":returns-original:" + id.Name,
+								msg: fmt.Sprintf("%s is copied into a fresh slice elsewhere in this function, but this return hands out %s itself: on this path the caller gets the original (a later in-place change of the result changes the source)", id.Name, id.Name)})
+						}
+					}
+				}
+				return true
+			})
+		}
+	}
+	return
+}
+
+const fixtureCopyOrOriginal = `package fixture
+
+import "sort"
+
+func sorted(list []int) []int {
+	list2 := make([]int, len(list))
+	copy(list2, list)
+	if len(list2) < 2 {
+		return list
+	}
+	sort.Ints(list2)
+	return list2
+}
+
+func fine(list []int) []int {
+	list2 := make([]int, len(list))
+	copy(list2, list)
+	sort.Ints(list2)
+	return list2
+}
+`
+
+func ruleCopyOrOriginal(prog *Program, rep *Report, floor int, rels ...string) {
+	rep.Rules = append(rep.Rules, "M-copyall: a function that copies a slice into one it allocates (copy(dst, src), dst from make) never returns src itself: a fast path that skips the work must still hand out the copy")
+	runSynRule(prog, rep, "M-copyall", rels, matchCopyOrOriginal, fixtureCopyOrOriginal, 1, floor)
+}
